@@ -28,7 +28,7 @@
 (*   v BIGINT   1, 2                                                       *)
 (*   s VARCHAR  1='a' 2='ab' 3='b'   (binary collation: 'a'<'ab'<'b')      *)
 (*   f DOUBLE   1=0.5 2=1.5                                                *)
-(*   t          seconds after the base timestamp of column "time"          *)
+(*   t          seconds after 2024-01-01 00:00:00 (column "time", non-NULL)  *)
 (***************************************************************************)
 EXTENDS Naturals, Sequences, FiniteSets, TLC, Json
 
@@ -73,6 +73,13 @@ FileOf(l, i) ==
          [] l = "pair" -> (j % 2) + 1
          [] l = "one"  -> 1
 Files == 1..3
+
+\* every file sits in its own partition directory (two hour partitions and one compacted day partition)
+\* and all files carry the SAME base name; a row's time lies inside its file's partition
+PartDir  == <<"2024/01/01/00", "2024/01/01/01", "2024/01/02">>
+PartBase == <<0, 3600, 86400>>                 \* seconds after 2024-01-01 00:00:00
+FileName == "data.parquet"
+TimeOf(l, i) == PartBase[FileOf(l, i)] + (IF i <= NBase THEN i ELSE DupOf)
 OrigT == [l \in Layouts |-> [f \in Files |-> {i \in RowIds : FileOf(l, i) = f}]]   \* constant table
 Orig(l, f) == OrigT[l][f]
 
@@ -91,7 +98,9 @@ AtomsSmall == <<
     IsNull("s", FALSE),
     In("s", <<1, Null>>, FALSE), In("s", <<2, 3>>, TRUE),
     Like("s", 1, FALSE), Like("s", 1, TRUE),
-    Cmp("f", "<", 2), IsNull("f", TRUE) >>
+    Cmp("f", "<", 2), IsNull("f", TRUE),
+    \* the time column (never NULL): literals on a partition boundary and inside the first partition
+    Cmp("t", "<", 3600), Cmp("t", ">=", 3600), Cmp("t", "<", 7) >>
 
 AtomsLarge == AtomsSmall \o <<
     Cmp("v", ">", 1), Cmp("v", "<=", 1), Cmp("v", "=", 2),
@@ -99,7 +108,8 @@ AtomsLarge == AtomsSmall \o <<
     Cmp("s", "<", 2), Cmp("s", "<=", 2), Cmp("s", ">=", 3), Cmp("s", "=", 2),
     IsNull("s", TRUE), Like("s", 2, FALSE),
     In("s", <<1, 2>>, FALSE),
-    Cmp("f", "=", 1), Cmp("f", ">=", 2), IsNull("f", FALSE), In("f", <<2, Null>>, TRUE) >>
+    Cmp("f", "=", 1), Cmp("f", ">=", 2), IsNull("f", FALSE), In("f", <<2, Null>>, TRUE),
+    Cmp("t", "<=", 86400), Cmp("t", ">", 86405), Cmp("t", ">=", 3607) >>
 
 AtomSeq == IF Size = "large" THEN AtomsLarge ELSE AtomsSmall
 NA      == Len(AtomSeq)
@@ -180,7 +190,7 @@ vars == <<p, lay, tv, store, pc, reqs, dry, aff, deleted>>
 
 Init == /\ p \in Preds
         /\ lay \in Layouts
-        /\ tv = [i \in RowIds |-> Eval(p, Row(i))]
+        /\ tv = [i \in RowIds |-> Eval(p, [Row(i) EXCEPT !.t = TimeOf(lay, i)])]
         /\ store = [f \in Files |-> Orig(lay, f)]
         /\ pc = "start" /\ reqs = <<>> /\ dry = 0 /\ aff = {} /\ deleted = 0
 
@@ -282,6 +292,8 @@ ASSUME Emit =>
     PrintT(<<"TRACE", ToJson([kind |-> "dataset",
                               rows |-> [i \in RowIds |-> Row(i)],
                               layouts |-> [l \in Layouts |-> [i \in RowIds |-> FileOf(l, i)]],
+                              times |-> [l \in Layouts |-> [i \in RowIds |-> TimeOf(l, i)]],
+                              part_dirs |-> PartDir, file_name |-> FileName,
                               npreds |-> Cardinality(Preds)])>>)
 
 EmitInv ==
